@@ -79,7 +79,7 @@ theorem get_eq_of_slot_inj {s : Store} (hw : s.WF hash) (hi : Function.Injective
     (h : s.slots[hash k]? = some e) : e.K = k := hi (hw _ _ h)
 
 theorem keyMismatchRead_eq {s : Store} {kind : Kind} (hw : s.WF hash) (hk : KindOK hash kind) (k : Key) :
-    kind.keyMismatchRead (s.slot hash k).isSome (slotKeyEq (s.slot hash k) k) = (s.get hash k).isNone := by
+    (!(s.slot hash k).isSome || kind.keyMismatchRead true (slotKeyEq (s.slot hash k) k)) = (s.get hash k).isNone := by
   unfold Store.slot Store.get
   cases hs : s.slots[hash k]? with
   | none => cases kind <;> simp [Kind.keyMismatchRead, Gen.keyMismatchRead, Gen.keyMismatchReadOf, slotKeyEq]
@@ -91,7 +91,7 @@ theorem keyMismatchRead_eq {s : Store} {kind : Kind} (hw : s.WF hash) (hk : Kind
       simp [Kind.keyMismatchRead, he]
 
 theorem keyMismatchDelete_eq {s : Store} {kind : Kind} (hw : s.WF hash) (hk : KindOK hash kind) (k : Key) :
-    kind.keyMismatchDelete (s.slot hash k).isSome (slotKeyEq (s.slot hash k) k) = (s.get hash k).isNone := by
+    (!(s.slot hash k).isSome || kind.keyMismatchDelete true (slotKeyEq (s.slot hash k) k)) = (s.get hash k).isNone := by
   unfold Store.slot Store.get
   cases hs : s.slots[hash k]? with
   | none => cases kind <;> simp [Kind.keyMismatchDelete, Gen.keyMismatchDelete, Gen.keyMismatchDeleteOf, slotKeyEq]
